@@ -332,7 +332,7 @@ class CFG:
                 todo.append(y)
         return seen
 
-    def exits_reachable_without(self, start: int, passing: Callable[[Node], bool], first_edges: list[tuple[int, str]] | None = None) -> list[tuple[Node, list[Node]]]:
+    def exits_reachable_without(self, start: int, passing: Callable[[Node], bool], skip_start_exc: bool = True, edge_ok: Callable[[Node, str], bool] | None = None) -> list[tuple[Node, list[Node], list[str]]]:
         """Exits reachable from `start` along paths that never pass a node satisfying `passing`.
 
         Returns (exit node, witness path) pairs. Used for "every path from A to any exit passes B".
@@ -345,6 +345,10 @@ class CFG:
             x = todo.pop(0)
             for y, lab in self.succ[x]:
                 if y in parent:
+                    continue
+                if x == start and skip_start_exc and lab.startswith("exc:"):
+                    continue  # the opening call itself failed: nothing was opened
+                if edge_ok is not None and not edge_ok(self.nodes[x], lab):
                     continue
                 ny = self.nodes[y]
                 if ny.kind not in ("exit", "raise_exit") and passing(ny):
